@@ -10,6 +10,7 @@ The glob matcher is a parameter (`glob pattern name`), instantiated with `Glob.f
 import InToto.Model.Basic
 import InToto.Model.Path
 import InToto.Model.Glob
+import InToto.Model.Json
 
 namespace InToto.Rules
 open InToto
@@ -131,14 +132,17 @@ def artsHas (a : Arts) (k : Str) : Bool :=
   | none => false
   | some l => (lookup k l).isSome
 
-/-- The in-place loop `for k := range m { if Clean(k) != k { m[Clean(k)] = m[k]; delete(m, k) } }`.
-    Deterministic when cleaning is injective on the keys (the model's domain); on a collision
-    the entry moved last (in list order) wins. -/
+/-- Go `cleanArtifactPaths`: every entry whose name is not a fixed point of `path.Clean` moves to its
+    clean name (replacing what is stored there); the names are handled in SORTED order
+    (`sort.Strings`), so among several names that clean to the same name the one that sorts last
+    survives, and an entry recorded under a clean name is replaced by any entry that moves onto it.
+    (Before the repair of finding F20 the code ranged over the map itself and the survivor depended
+    on Go's map order.) -/
 def cleanArts : Arts → Arts
   | none => none
   | some l =>
     let cleanKeys := l.filter fun kv => Path.clean kv.1 = kv.1
-    let moved := l.filter fun kv => Path.clean kv.1 ≠ kv.1
+    let moved := sortBy (fun a b => Json.strLt a.1 b.1) (l.filter fun kv => Path.clean kv.1 ≠ kv.1)
     some (moved.foldl (fun acc kv =>
       (acc.filter fun e => e.1 ≠ Path.clean kv.1) ++ [(Path.clean kv.1, kv.2)]) cleanKeys)
 
